@@ -178,7 +178,8 @@ Proof.
   destruct (opt1 15 3 4 l3) as [ow l4] eqn:H4.
   destruct (opt1 48 3 4 l4) as [ob l5] eqn:H5.
   destruct (opt1 49 3 4 l5) as [oe l6] eqn:H6.
-  destruct (take_xy l6) as [[pts l7]|] eqn:H7; [|discriminate].
+  destruct (width_ok ow) eqn:Hwok; [|discriminate].
+  destruct (take_xy1 l6) as [[pts l7]|] eqn:H7x; [|discriminate]. pose proof (take_xy1_some _ _ H7x) as H7.
   destruct (take_props [] l7) as [prs l8] eqn:H8.
   destruct (take_endel l8) as [l9|] eqn:H9; [|discriminate].
   intros [= <- <-]. eexists. split; [reflexivity|]. cbn [h_layer h_type].
@@ -201,6 +202,7 @@ Proof.
   rewrite (info_str _ 18 _ _ _ ltac:(noop_num) H1), (info_strans _ _ _ _ H2).
   destruct array.
   - destruct (take1 19 2 4 l2) as [[rc l3]|] eqn:H3; [|discriminate].
+    destruct (colrow_ok rc) eqn:Hcr; [|discriminate].
     destruct (take1 16 3 24 l3) as [[rx l4]|] eqn:H4; [|discriminate].
     destruct (take_props [] l4) as [prs l5] eqn:H5.
     destruct (take_endel l5) as [l6|] eqn:H6; [|discriminate].
@@ -230,6 +232,7 @@ Proof.
   destruct (opt1 23 1 2 l2) as [opr l3] eqn:H3.
   destruct (opt1 33 2 2 l3) as [opt_ l4] eqn:H4.
   destruct (opt1 15 3 4 l4) as [ow l5] eqn:H5.
+  destruct (width_ok ow) eqn:Hwok; [|discriminate].
   destruct (take_strans l5) as [[[refl mag] rot] l6] eqn:H6.
   destruct (take1 16 3 8 l6) as [[rx l7]|] eqn:H7; [|discriminate].
   destruct (take_str 25 l7) as [[tx l8]|] eqn:H8; [|discriminate].
@@ -483,6 +486,7 @@ Proof.
   destruct (take1 1 2 24 l1) as [[r1 l2]|] eqn:H1; [|discriminate].
   destruct (take_str 2 l2) as [[nm l3]|] eqn:H2; [|discriminate].
   destruct (take1 3 5 16 (skip_libopt l3)) as [[ru l4]|] eqn:H3; [|discriminate].
+  destruct (units_ok ru) eqn:Huok; [|discriminate].
   destruct (spec_structures (length l4) l4) as [[cs rest]|] eqn:H4; [|discriminate].
   intros [= <-]. cbn [g_cells g_units].
   destruct (spec_structures_raw_ok _ _ _ _ H4) as (raw & Hraw & ->).
